@@ -9,10 +9,10 @@ use std::sync::atomic::{AtomicUsize, Ordering};
 use varlink::{Call, CallTrait, ConnectionHandler, Reply, VarlinkService};
 
 pub struct ScriptIface {
+    pub name: &'static str,
     pub scripts: Vec<Msg>,
     pub next: AtomicUsize,
     pub upgraded_bytes: std::sync::Mutex<Vec<u8>>,
-    pub unread_suffix: usize,
 }
 
 impl varlink::Interface for ScriptIface {
@@ -20,7 +20,7 @@ impl varlink::Interface for ScriptIface {
         "interface a.b\nmethod M() -> ()\n"
     }
     fn get_name(&self) -> &'static str {
-        "a.b"
+        self.name
     }
     fn call_upgraded(&self, _call: &mut Call, b: &mut dyn BufRead) -> varlink::Result<Vec<u8>> {
         let mut v = Vec::new();
@@ -35,58 +35,68 @@ impl varlink::Interface for ScriptIface {
             }
             b.consume(n);
         }
-        let keep = v.len().saturating_sub(self.unread_suffix);
-        let unread = v.split_off(keep);
         self.upgraded_bytes.lock().unwrap().extend_from_slice(&v);
-        Ok(unread)
+        Ok(Vec::new())
     }
     fn call(&self, call: &mut Call) -> varlink::Result<()> {
         let i = self.next.fetch_add(1, Ordering::SeqCst);
         let m = self.scripts[i];
-        let mut j = 0;
-        while j < m.nops as usize && j < MAXOPS {
-            match m.ops[j] {
-                OP_CONT_ON => call.set_continues(true),
-                OP_CONT_OFF => call.set_continues(false),
-                OP_REPLY => call.reply_struct(Reply::parameters(None))?,
-                OP_REPLY_ERR => call.reply_struct(Reply::error("a.b.E", None))?,
-                OP_INVALID_PARAM => call.reply_invalid_parameter("p".into())?,
-                OP_FAIL => return Err(varlink::context!(varlink::ErrorKind::Generic)),
-                _ => call.to_upgraded(),
-            }
-            j += 1;
+        for _ in 0..m.nreplies.min(MAXREPLIES) {
+            call.reply_struct(Reply::parameters(None))?;
         }
-        Ok(())
+        match m.outcome {
+            O_OK => Ok(()),
+            O_ERR => Err(varlink::context!(varlink::ErrorKind::Generic)),
+            _ => {
+                call.to_upgraded();
+                Ok(())
+            }
+        }
     }
 }
 
 pub fn target_name(t: u8) -> &'static str {
     match t {
-        T_GETINFO => "GetInfo",
-        T_GETDESC => "GetInterfaceDescription",
-        T_BUILTIN_UNKNOWN => "unknown-builtin-method",
-        T_REGISTERED => "registered-interface",
-        T_UNKNOWN_IFACE => "unknown-interface",
+        T_DISPATCH => "registered-interface",
         T_NODOT => "method-without-dot",
+        T_EMPTY => "empty-method",
+        T_LEADING_DOT | T_DOUBLE_DOT | T_TRAILING_DOT => "odd-dots",
+        T_SERVICE => "service-interface",
         _ => "empty-method",
     }
 }
 
-pub fn service(sc_msgs: &[Msg], unread_suffix: usize) -> VarlinkService {
-    let scripts: Vec<Msg> = sc_msgs.iter().filter(|m| m.parse_ok && m.target == T_REGISTERED).cloned().collect();
-    VarlinkService::new(
-        "v",
-        "p",
-        "1",
-        "u",
-        vec![Box::new(ScriptIface {
+pub fn service(sc_msgs: &[Msg]) -> (VarlinkService, *const ScriptIface) {
+    // one scripted interface per distinct interface name the stream addresses
+    // (org.varlink.service is the library's own)
+    let mut names: Vec<&'static str> = Vec::new();
+    for m in sc_msgs.iter().filter(|m| m.parse_ok) {
+        if let Some(n) = iface_of(m.target) {
+            if n != "org.varlink.service" && !names.contains(&n) {
+                names.push(n);
+            }
+        }
+    }
+    let mut first: *const ScriptIface = std::ptr::null();
+    let mut ifaces: Vec<Box<dyn varlink::Interface + Send + Sync>> = Vec::new();
+    for n in names {
+        let scripts: Vec<Msg> = sc_msgs.iter().filter(|m| m.parse_ok && iface_of(m.target) == Some(n)).cloned().collect();
+        let iface = Box::new(ScriptIface {
+            name: n,
             scripts,
             next: AtomicUsize::new(0),
             upgraded_bytes: std::sync::Mutex::new(Vec::new()),
-            unread_suffix,
-        })],
-    )
+        });
+        if first.is_null() {
+            first = &*iface;
+        }
+        ifaces.push(iface);
+    }
+    (VarlinkService::new("v", "p", "1", "u", ifaces), first)
 }
+
+unsafe impl Send for ScriptIface {}
+unsafe impl Sync for ScriptIface {}
 
 pub fn classify_reply(text: &[u8]) -> Option<(bool, u8)> {
     let v: serde_json::Value = serde_json::from_slice(text).ok()?;
@@ -111,63 +121,80 @@ pub fn stream_bytes(sc: &C01, tail: &[u8]) -> Vec<u8> {
     v
 }
 
-/// judge one handle() run against the expectation; returns (violated, role, detail)
-pub fn judge(sc: &C01, tail: &[u8], out: &[u8], res: &varlink::Result<(Vec<u8>, Option<String>)>) -> (bool, String, String) {
-    let replies: Vec<&[u8]> = out.split(|b| *b == 0).collect();
-    // split leaves one trailing empty piece when the output ends in NUL
-    let (replies, trailing) = replies.split_at(replies.len() - 1);
+/// judge one handle() run against the expectation; returns (violated, role, detail).
+/// `rest_of_reader` = bytes the caller's reader still holds after the call.
+pub fn judge(sc: &C01, tail: &[u8], input: &[u8], msg_lens: &[usize], rest_of_reader: &[u8], out: &[u8],
+             res: &varlink::Result<(Vec<u8>, Option<String>)>) -> (bool, String, String) {
+    let pieces: Vec<&[u8]> = out.split(|b| *b == 0).collect();
+    let (replies, trailing) = pieces.split_at(pieces.len() - 1);
     let mut pos = 0usize;
-    let mut closed_at = sc.k;
+    let mut stop_at = sc.k;
+    let mut closes = false;
+    let mut upgrades = false;
+    let mut offset = 0usize; // end of request i in the input
+    let mut end_of_stop = 0usize;
     for i in 0..sc.k {
-        let e = expect(&sc.msgs[i]);
-        for x in 0..e.writes {
+        let mut e = expect(&sc.msgs[i]);
+        if sc.msgs[i].parse_ok && sc.msgs[i].target == T_SERVICE {
+            // natively the library's own interface serves this one: exactly one GetInfo reply
+            e = Expect {
+                script_replies: 1,
+                iface_not_found: false,
+                closes: false,
+                upgraded: false,
+            };
+        }
+        offset += msg_lens[i] + 1;
+        let want: Vec<u8> = std::iter::repeat(E_NONE).take(e.script_replies).chain(if e.iface_not_found { Some(E_IFACE_NOT_FOUND) } else { None }).collect();
+        for (x, w) in want.iter().enumerate() {
             let got = replies.get(pos + x).and_then(|r| classify_reply(r));
-            if got != Some((e.cont[x], e.err[x])) {
+            if got != Some((false, *w)) {
                 return (
                     true,
-                    format!("wrong-or-missing-reply:{}", target_name(sc.msgs[i].target)),
-                    format!("request #{}: expected reply (continues={}, error={}), got {:?}", i, e.cont[x], e.err[x] as char, got),
+                    format!("request-unanswered-or-misanswered:after-{}", if i > 0 { target_name(sc.msgs[i - 1].target) } else { "nothing" }),
+                    format!("request #{} ({}): expected reply kind {}, got {:?}", i, target_name(sc.msgs[i].target), *w as char, got),
                 );
             }
         }
-        pos += e.writes;
-        if e.closes {
-            closed_at = i;
+        pos += want.len();
+        if e.closes || e.upgraded {
+            stop_at = i;
+            closes = e.closes;
+            upgrades = e.upgraded;
+            end_of_stop = offset;
             break;
         }
     }
     if replies.len() != pos || !trailing[0].is_empty() {
-        return (
-            true,
-            "extra-reply".into(),
-            format!("{} replies written, {} expected", replies.len(), pos),
-        );
+        return (true, "extra-reply".into(), format!("{} replies written, {} expected", replies.len(), pos));
     }
-    if closed_at < sc.k {
+    if closes {
         if res.is_ok() {
             return (
                 true,
-                format!("failing-request-does-not-close:{}", target_name(sc.msgs[closed_at].target)),
-                format!("request #{} must close the connection but handle returned Ok", closed_at),
+                format!("failing-request-does-not-close:{}", target_name(sc.msgs[stop_at].target)),
+                format!("request #{} must close the connection but handle returned Ok", stop_at),
             );
+        }
+    } else if upgrades {
+        match res {
+            Ok((rest, Some(_))) => {
+                let mut all = rest.clone();
+                all.extend_from_slice(rest_of_reader);
+                if all != input[end_of_stop..] {
+                    return (true, "bytes-after-upgrade-lost".into(), format!("after the upgrade request {:?} must remain, got {:?}", &input[end_of_stop..], all));
+                }
+            }
+            other => return (true, "upgrade-not-reported".into(), format!("handle returned {:?}", other.as_ref().map(|x| &x.1).map_err(|e| e.kind().clone()))),
         }
     } else {
         match res {
             Ok((t, None)) if t == tail => {}
             Ok((t, up)) => {
-                // which request kind made the loop stop early?
-                let served = pos;
-                let _ = served;
-                let mut culprit = "tail";
-                for i in 0..sc.k {
-                    if matches!(sc.msgs[i].target, T_NODOT | T_EMPTY) && i + 1 < sc.k + tail.len().min(1) {
-                        culprit = "method-without-dot";
-                        break;
-                    }
-                }
+                let culprit = if sc.msgs[..sc.k].iter().any(|m| iface_of(m.target).is_none()) { "method-without-dot" } else { "tail" };
                 return (
                     true,
-                    format!("buffered-input-dropped:{}", culprit),
+                    format!("incomplete-tail-lost:{}", culprit),
                     format!("handle returned Ok(tail={:?}, upgraded={:?}), expected tail {:?}", t, up, tail),
                 );
             }
@@ -179,26 +206,144 @@ pub fn judge(sc: &C01, tail: &[u8], out: &[u8], res: &varlink::Result<(Vec<u8>, 
     (false, String::new(), String::new())
 }
 
-pub fn stream<S: Src>(s: &mut S, k: usize, tail: &[u8]) -> Outcome {
-    let sc = draw(s, k);
-    let svc = service(&sc.msgs[..k], 0);
-    let input = stream_bytes(&sc, tail);
+pub fn run_stream(sc: &C01, tail: &[u8], flags: bool) -> Outcome {
+    let k = sc.k;
+    let (svc, _p) = service(&sc.msgs[..k]);
+    let mut input = Vec::new();
+    let mut msg_lens = Vec::new();
+    for i in 0..k {
+        let mut j = request_json(&sc.msgs[i]);
+        if flags && sc.msgs[i].parse_ok {
+            // the _flags instance: every request carries more=true, oneway=false
+            j = j.replace("\"}", "\",\"more\":true,\"oneway\":false}");
+        }
+        msg_lens.push(j.len());
+        input.extend_from_slice(j.as_bytes());
+        input.push(0);
+    }
+    input.extend_from_slice(tail);
     let mut out: Vec<u8> = Vec::new();
-    let res = svc.handle(&mut &input[..], &mut out, None);
-    let (violated, role, detail) = judge(&sc, tail, &out, &res);
+    let mut reader = &input[..];
+    let res = svc.handle(&mut reader, &mut out, None);
+    let (violated, role, detail) = judge(sc, tail, &input, &msg_lens, reader, &out, &res);
     let scenario = format!(
-        "stream {} ; scripts {:?}",
+        "stream {} ; dispatched implementations (replies, outcome 0=Ok 1=Err 2=upgrade): {:?}",
         String::from_utf8_lossy(&input).replace('\0', "\\0"),
-        sc.msgs[..k].iter().map(|m| &m.ops[..m.nops as usize]).collect::<Vec<_>>()
+        sc.msgs[..k].iter().filter(|m| iface_of(m.target).is_some()).map(|m| (m.nreplies, m.outcome)).collect::<Vec<_>>()
     );
     Outcome {
         reproduced: violated,
         role,
         scenario,
+        detail: format!("{} | output: {}", detail, String::from_utf8_lossy(&out).replace('\0', "\\0")),
+    }
+}
+
+/// the harness instances (must mirror harness/lib/c01.rs): (k, tail, fail_at, targets)
+pub fn instance_of(name: &str) -> Option<(usize, &'static [u8], usize, [u8; KMAX])> {
+    const D: u8 = T_DISPATCH;
+    const N: u8 = T_NODOT;
+    const E: u8 = T_EMPTY;
+    const NF: usize = 9;
+    Some(match name {
+        "c01_k1_d" | "c01_k1_d_flags" => (1, b"t", NF, [D, D, D]),
+        "c01_k1_n" => (1, b"t", NF, [N, D, D]),
+        "c01_k1_e" => (1, b"t", NF, [E, D, D]),
+        "c01_k1_d_f0" | "c06_k1_malformed" => (1, b"t", 0, [D, D, D]),
+        "c01_k2_dd" => (2, b"t", NF, [D, D, D]),
+        "c01_k2_nd" => (2, b"t", NF, [N, D, D]),
+        "c01_k2_dn" => (2, b"t", NF, [D, N, D]),
+        "c01_k2_ed" => (2, b"t", NF, [E, D, D]),
+        "c01_k2_nn" => (2, b"t", NF, [N, N, D]),
+        "c01_k2_dd_f1" | "c06_k2_second_malformed" => (2, b"t", 1, [D, D, D]),
+        "c01_k2_dd_f0" | "c06_k2_first_malformed" => (2, b"t", 0, [D, D, D]),
+        "c01_k3_ddd" => (3, b"", NF, [D, D, D]),
+        "c01_k3_dnd" => (3, b"", NF, [D, N, D]),
+        "c01_k3_ddd_f2" => (3, b"", 2, [D, D, D]),
+        "c03_split_leading_dot" => (1, b"t", NF, [T_LEADING_DOT, D, D]),
+        "c03_split_double_dot" => (1, b"t", NF, [T_DOUBLE_DOT, D, D]),
+        "c03_split_trailing_dot" => (1, b"t", NF, [T_TRAILING_DOT, D, D]),
+        "c03_split_service" => (1, b"t", NF, [T_SERVICE, D, D]),
+        _ => return None,
+    })
+}
+
+pub fn instance<S: Src>(name: &str, s: &mut S) -> Outcome {
+    let (k, tail, fail_at, targets) = match instance_of(name) {
+        Some(x) => x,
+        None => {
+            return Outcome {
+                reproduced: false,
+                role: String::new(),
+                scenario: String::new(),
+                detail: format!("unknown harness instance {}", name),
+            }
+        }
+    };
+    let mut sc = draw(s, k);
+    for j in 0..k {
+        s.assume(sc.msgs[j].parse_ok == (j != fail_at));
+        s.assume(sc.msgs[j].target == targets[j]);
+        sc.msgs[j].parse_ok = j != fail_at;
+        sc.msgs[j].target = targets[j];
+    }
+    run_stream(&sc, tail, name.ends_with("_flags"))
+}
+
+/// C02 native replay: one cut point, real handle, real bytes.
+pub fn two_chunks<S: Src>(cut: usize, s: &mut S) -> Outcome {
+    let mut sc = draw(s, 2);
+    for j in 0..2 {
+        s.assume(sc.msgs[j].parse_ok && sc.msgs[j].target == T_DISPATCH && sc.msgs[j].outcome == O_OK);
+        sc.msgs[j].parse_ok = true;
+        sc.msgs[j].target = T_DISPATCH;
+        sc.msgs[j].outcome = O_OK;
+    }
+    let tail = b"t";
+    let input = stream_bytes(&sc, tail);
+    // the harness cuts a 5-byte stream; natively messages are longer: map the cut to the same
+    // structural position (0 start, 1 inside msg 0, 2 boundary, 3 inside msg 1, 4 boundary, 5 end)
+    let l0 = request_json(&sc.msgs[0]).len() + 1;
+    let l1 = request_json(&sc.msgs[1]).len() + 1;
+    let c = match cut {
+        0 => 0,
+        1 => l0 / 2,
+        2 => l0,
+        3 => l0 + l1 / 2,
+        4 => l0 + l1,
+        _ => input.len(),
+    };
+    let (svc_a, _) = service(&sc.msgs[..2]);
+    let mut out_a = Vec::new();
+    let res_a = svc_a.handle(&mut &input[..], &mut out_a, None);
+    let (svc_b, _) = service(&sc.msgs[..2]);
+    let mut out_b = Vec::new();
+    let res_1 = svc_b.handle(&mut &input[..c], &mut out_b, None);
+    let mut second = match &res_1 {
+        Ok((t, None)) => t.clone(),
+        other => {
+            return Outcome {
+                reproduced: true,
+                role: "first-chunk-fails".into(),
+                scenario: format!("stream {:?} cut at {}", String::from_utf8_lossy(&input), c),
+                detail: format!("first chunk: {:?}", other.as_ref().map_err(|e| e.kind().clone())),
+            }
+        }
+    };
+    second.extend_from_slice(&input[c..]);
+    let res_2 = svc_b.handle(&mut &second[..], &mut out_b, None);
+    let ok_tail = |r: &varlink::Result<(Vec<u8>, Option<String>)>| matches!(r, Ok((t, None)) if t == tail);
+    let bad = out_a != out_b || !ok_tail(&res_a) || !ok_tail(&res_2);
+    Outcome {
+        reproduced: bad,
+        role: format!("cut-{}", match cut { 0 | 5 => "at-end", 2 | 4 => "on-boundary", _ => "inside-message" }),
+        scenario: format!("stream {} cut at byte {}", String::from_utf8_lossy(&input).replace('\0', "\\0"), c),
         detail: format!(
-            "{} | output: {}",
-            detail,
-            String::from_utf8_lossy(&out).replace('\0', "\\0")
+            "whole: {} tail {:?} | chunked: {} tail {:?}",
+            String::from_utf8_lossy(&out_a).replace('\0', "\\0"),
+            res_a.as_ref().map(|x| x.0.clone()).map_err(|e| e.kind().clone()),
+            String::from_utf8_lossy(&out_b).replace('\0', "\\0"),
+            res_2.as_ref().map(|x| x.0.clone()).map_err(|e| e.kind().clone())
         ),
     }
 }
